@@ -58,6 +58,24 @@ def align_cases(ctx: Ctx):
             else:
                 b.insert(rng.randint(2, len(b) - 2), 97)
         pairs.append((a, b))
+    # very long sequences over a small alphabet (every value is frequent), one or two edits close to each other somewhere in the middle: whatever strategy
+    # is used for large inputs, the equal prefix and suffix have to come out as matches (round-9 miss C11-1: a size threshold in front of the stripping)
+    for _ in range(10 if not ctx.thorough else 60):
+        n = rng.randint(120, 330)
+        k = rng.choice([2, 3, 5, 8])
+        a = [rng.randrange(k) for _ in range(n)]
+        b = list(a)
+        pos = rng.randint(5, n - 40)
+        for _ in range(rng.randint(1, 2)):
+            r = rng.random()
+            q = pos + rng.randint(0, 25)
+            if r < 0.4:
+                del b[q]
+            elif r < 0.8:
+                b.insert(q, rng.randrange(k))
+            else:
+                b[q] = k + 1
+        pairs.append((a, b))
     return pairs
 
 
